@@ -318,7 +318,6 @@ Q q_sv_move_assign()
 }
 Q q_sv_copy_assign_self() // v = v leaves the value unchanged
 {
-    VF_KNOWN(C03_static_vector_self_copy_assign, NA > 0);
     M m; void* p = sv_make(m, NA, 0);
     k_sv_copy_assign(p, p); sv_check(p, m, 0); sv_fin(p, 0); END();
 }
